@@ -1,0 +1,69 @@
+//go:build verif
+
+/*
+ * Copyright 2022 CloudWeGo Authors
+ *
+ * Licensed under the Apache License, Version 2.0 (the "License");
+ * you may not use this file except in compliance with the License.
+ * You may obtain a copy of the License at
+ *
+ *     http://www.apache.org/licenses/LICENSE-2.0
+ *
+ * Unless required by applicable law or agreed to in writing, software
+ * distributed under the License is distributed on an "AS IS" BASIS,
+ * WITHOUT WARRANTIES OR CONDITIONS OF ANY KIND, either express or implied.
+ * See the License for the specific language governing permissions and
+ * limitations under the License.
+ */
+
+package standard
+
+import (
+	"net"
+	"strconv"
+
+	"github.com/cloudwego/hertz/pkg/network"
+)
+
+// NewConnForVerif wraps an arbitrary net.Conn in the real buffered Conn.
+// Verification hook H1; compiled only with -tags verif.
+func NewConnForVerif(c net.Conn, size int) network.Conn {
+	return newConn(c, size)
+}
+
+// DumpForVerif returns a canonical description of the link-buffer layout of a
+// Conn created by NewConnForVerif (node caps, offsets, cursors, lengths).
+func DumpForVerif(nc network.Conn) string {
+	c, ok := nc.(*Conn)
+	if !ok {
+		return "?"
+	}
+	dump := func(l *linkBuffer) string {
+		s := "len=" + strconv.Itoa(l.len) + "["
+		i := 0
+		for n := l.head; n != nil; n = n.next {
+			if n == l.read {
+				s += "R"
+			}
+			if n == l.write {
+				s += "W"
+			}
+			s += strconv.Itoa(cap(n.buf)) + "/" + strconv.Itoa(len(n.buf)) + "/" + strconv.Itoa(n.off) + "/" + strconv.Itoa(n.malloc)
+			if n.readOnly {
+				s += "ro"
+			}
+			s += " "
+			i++
+			if i > 64 {
+				s += "..."
+				break
+			}
+		}
+		return s + "]"
+	}
+	e := ""
+	if c.err != nil {
+		e = c.err.Error()
+	}
+	return "in:" + dump(c.inputBuffer) + " out:" + dump(c.outputBuffer) + " caches=" + strconv.Itoa(len(c.caches)) + " max=" + strconv.Itoa(c.maxSize) + " err=" + e
+}
